@@ -86,7 +86,13 @@ Div(a, b) == IF a = U \/ b = U \/ b = 0 THEN U
              ELSE Norm(Sgn(a) * Sgn(b) * ((Abs(a) * Q) \div Abs(b)))
 RECURSIVE PowN(_, _)
 PowN(a, k) == IF k = 0 THEN Q ELSE Mul(a, PowN(a, k - 1))
+\* the square root of an exact perfect square is exact (Q = 8 * 8: a / Q = (s / Q)^2 iff a = r * r and s = 8 * r); of a negative
+\* number it is not a real number, of anything else not a dyadic: outside the exact evaluation domain
+SqrtQ == 8
+Sqrt(a) == IF a = U \/ a < 0 THEN U
+           ELSE IF \E r \in 0..182 : r * r = a THEN SqrtQ * (CHOOSE r \in 0..182 : r * r = a) ELSE U
 Pow(a, b) == IF a = U \/ b = U THEN U
+             ELSE IF b = Q \div 2 THEN Sqrt(a)
              ELSE IF Abs(b) % Q # 0 \/ Abs(b) > 4 * Q THEN U
              ELSE IF b >= 0 THEN PowN(a, b \div Q) ELSE Div(Q, PowN(a, Abs(b) \div Q))
 Apply(op, a, b) == CASE op = "add" -> Add(a, b) [] op = "sub" -> Sub(a, b) [] op = "mul" -> Mul(a, b)
@@ -120,7 +126,21 @@ LeafCode(k) == CASE k = "P2" -> 1 [] k = "P3" -> 2 [] k = "PT" -> 3 [] k = "I" -
 OpCode(o) == CASE o = "add" -> 1 [] o = "sub" -> 2 [] o = "mul" -> 3 [] o = "div" -> 4 [] o = "pow" -> 5
 RECURSIVE H(_)
 H(t) == IF IsLeaf(t) THEN LeafCode(t.k) ELSE (H(t.l) * 31 + H(t.r) * 17 + OpCode(t.op) * 7 + 3) % 10007
+\* chains of scalars: two numbers applied one after the other to a parameter leaf with the same operator, in both nestings
+\* ((X op a) op b  and  a op (b op X)); always part of the enumeration (what an implementation may be tempted to regroup)
+LeftChain(t) == ~IsLeaf(t) /\ IsNum(t.r) /\ ~IsLeaf(t.l) /\ t.l.op = t.op /\ IsNum(t.l.r) /\ IsLeaf(t.l.l) /\ IsParam(t.l.l)
+RightChain(t) == ~IsLeaf(t) /\ IsNum(t.l) /\ ~IsLeaf(t.r) /\ t.r.op = t.op /\ IsNum(t.r.l) /\ IsLeaf(t.r.r) /\ IsParam(t.r.r)
+ScalarChain(t) == LeftChain(t) \/ RightChain(t)
+\* a number leaf of any value v (units of 1/Q): only ever the operand of an expression the chain is COMPARED with
+Num(v) == [k |-> "C", v |-> v]
+NumVal(t) == IF t.k = "I" THEN 2 * Q ELSE Q \div 2
+Combos(a, b) == {Add(a, b), Sub(a, b), Mul(a, b), Div(a, b)} \ {U}
+\* the single-operator expressions with one combined number in place of the two of the chain
+Folded(t) == IF LeftChain(t) THEN {Node(t.op, t.l.l, Num(c)) : c \in Combos(NumVal(t.l.r), NumVal(t.r))}
+             ELSE IF RightChain(t) THEN {Node(t.op, Num(c), t.r.r) : c \in Combos(NumVal(t.l), NumVal(t.r.l))}
+             ELSE {}
 Sampled(t) == \/ Level(t) <= 1
+              \/ ScalarChain(t)
               \/ Level(t) = 2 /\ (SampleMod = 1 \/ (H(t) + SampleSeed) % SampleMod = 0)
               \/ Level(t) > 2 /\ (H(t) + SampleSeed) % DeepMod = 0
 \* which trees with 2 or more operator levels are grown further: all of a sample, 1 in 97 of the complete set
@@ -391,7 +411,9 @@ Grow == /\ pc = "grow" /\ Level(tree) < MaxLevel /\ GrowsOn(tree)
         /\ UNCHANGED <<pc, orig, copy, pickled, last, ncalls>>
 
 \* the twinned form of an expression with equal operands somewhere (explored next to the expression itself)
-VariantsOf(t) == Level(t) <= 1 \/ VarMod = 1 \/ (H(t) + SampleSeed) % VarMod = 0
+HashSampled(t) == Level(t) <= 1 \/ (Level(t) = 2 /\ (SampleMod = 1 \/ (H(t) + SampleSeed) % SampleMod = 0))
+                  \/ (Level(t) > 2 /\ (H(t) + SampleSeed) % DeepMod = 0)
+VariantsOf(t) == HashSampled(t) /\ (Level(t) <= 1 \/ VarMod = 1 \/ (H(t) + SampleSeed) % VarMod = 0)
 Twin == /\ pc = "grow" /\ HasEqualOperands(tree) /\ ~HasTwin(tree) /\ VariantsOf(tree)
         /\ tree' = Twinned(tree) /\ pc' = "twin"
         /\ UNCHANGED <<orig, copy, pickled, last, ncalls>>
@@ -444,7 +466,7 @@ Eq(other) ==
 \* say about a leaf and its twin is not part of the property)
 Variants(tr) == {tr} \cup (IF IsLeaf(tr) THEN T0 \ {Leaf("I"), Leaf("F")}
                            ELSE IF HasTwin(tr) THEN {Node(o, tr.l, tr.r) : o \in Ops}
-                           ELSE {Node(tr.op, tr.r, tr.l), tr.l, tr.r} \cup {Node(o, tr.l, tr.r) : o \in Ops} \cup SameFlat(tr))
+                           ELSE {Node(tr.op, tr.r, tr.l), tr.l, tr.r} \cup {Node(o, tr.l, tr.r) : o \in Ops} \cup SameFlat(tr) \cup Folded(tr))
 
 \* an array call whose points arrive as content a in buffer b.  A cache that identifies the argument by its memory answers,
 \* for its caching operands, with the value of the content it first saw there at that time
@@ -587,7 +609,7 @@ SolverDomain(tr) == /\ AllLeaves3D(tr) /\ "P3" \in Kinds(tr) /\ ~HasTwin(tr) /\ 
 Emit == (pc \in {"built", "failed"} /\ last.what = "none") =>
           PrintT(ToJson([tree |-> tree, td |-> TimeDep(tree), level |-> Level(tree), h |-> H(tree),
                          solver |-> SolverDomain(tree), twin |-> HasTwin(tree), ship |-> HasShipped(tree), konst |-> HasConst(tree),
-                         eqs |-> IF HasTwin(tree) THEN {} ELSE SameFlat(tree),
+                         eqs |-> IF HasTwin(tree) THEN {} ELSE SameFlat(tree) \cup Folded(tree), chain |-> ScalarChain(tree),
                          expect |-> [f \in Forms |-> Expect(tree, f)],
                          vals |-> [f \in Forms |-> [n \in 1..Len(TimeSeq) |-> [a \in Args |-> EvalAt(tree, a, TimeSeq[n])]]]]))
 =============================================================================
